@@ -65,7 +65,7 @@ def r1_pipeline(ctx, chk, rule="C02.1"):
     # pruning iff flag
     st = cfg.stmt_of(psg)
     par = st.parent
-    flag_ok = isinstance(par, ast.If) and st in par.body and attr_path(par.test) == "self.prune_states"
+    flag_ok = isinstance(par, ast.If) and st in par.body and attr_path(par.test) == "self." + shared.solver_names(ctx)["flag_field"]
     if flag_ok and cfg.dominates(par, str_):
         # no path from pruning to solve_total_rewards skipping? pruning inside the if-body always executes when flag holds
         body_jumps = [n for s in par.body for n in ast.walk(s) if isinstance(n, (ast.Return, ast.Raise, ast.Break, ast.Continue))]
@@ -115,7 +115,7 @@ def solve_slot(ctx, chk, rule, slot, field, after, what):
         return
     node = sx.loops[t[1]].node
     source, flt, elt, whole = le
-    slist = sx.final.env.get("state_list")
+    slist = sx.final.env.get(shared.solver_names(ctx)["var"])
     good_src = slist is not None and source in (slist, ("mcall", ("v", "self"), "init_states", (), ()))
     if cfg.dominates(calls[0], node) and elt == ("attr", ("e",), field) and flt == TRUE and good_src and whole:
         chk.ok(rule, f.where(node), "solve()[%d] (%s) = [state.%s for state in state_list], read after %s()" % (slot, what, field, after))
@@ -198,7 +198,7 @@ def r3_sweep(ctx, chk, rule="C02.3"):
     if r is None:
         return
     f, sx, W, F, fo, where = r["f"], r["sx"], r["W"], r["F"], r["fold"], r["where"]
-    slist = ("attr", ("v", "self"), "state_list")
+    slist = shared.SLIST(ctx)
     if strip_perm(F.source) != slist:
         chk.violation(rule, where, "the reward sweep iterates `%s`, not the whole state list" % show(F.source), expected="for state in self.state_list",
                       found=show(F.source), construct="value_iteration_total_rewards domain")
@@ -346,7 +346,7 @@ def r4_restriction_argument(ctx, chk, rule="C02.4"):
         chk.undecided(rule, g.where(), "%d loops in prune_reachability" % len(loops))
         return
     L = loops[0]
-    slist = ("attr", ("v", "self"), "state_list")
+    slist = shared.SLIST(ctx)
     param = ("v", g.params[1])
     cs = [e for e in L.effects if e[1] == "call" and e[2][0] == "mcall" and e[2][2] == "prune_paths_reachability"]
     st = ("elem", L.id)
